@@ -283,6 +283,10 @@ def _configs(tier, salts):
                 if not cfg.get("sets"):
                     continue
                 out.append((dict(cfg, record_dykstra=True, tag_start="trinc", tag_restart=cfg["tag_mode"]), plan))
+        # declared linear-algebra faults with projections (points evaluated by the recovering soft restart)
+        if salt == 0 or (tier == "thorough" and salt == 1):
+            for cfg, plan in cfgs.linalg_fault_cfgs(salt, tier, modes=("sets_soft",)):
+                out.append((dict(cfg, record_dykstra=True, tag_start="la", tag_restart="la"), plan))
         # projection modes of the broad option bank (user Dykstra parameters, restarts, regulariser + projections)
         if salt == 0 or (tier == "thorough" and salt == 1):
             for name, cfg in cfgs.broad_cfgs(salt=salt, require=("sets",), budgets=(12, 35), reg_budgets=(8,)):
